@@ -306,7 +306,7 @@ Qed.
    checker rewrites capture resolutions only (check_resolves, Props/C06.v), so statement locations and printed identifiers
    are those of the parsed file (Proofs/LoadedFile.v): the facts above hold of the loaded file, and the end-to-end theorems
    hold for every text the model's loader accepts - no hypothesis about the file is left. *)
-From TSG Require Model.Loader Proofs.LoadedFile.
+From TSG Require Model.Loader Proofs.LoadedFile Proofs.ParseNodeText.
 
 Theorem loaded_locs_unique : forall X q fuel text fl pats,
   Loader.load X q fuel text = Loader.LdOk fl pats -> locs_unique fl = true.
@@ -387,6 +387,15 @@ Qed.
    model fills the field with display_variable (compared with `format!("{}", node)` of the real AST by stream C07), and the
    checker rewrites capture resolutions only, which Display does not read.  The <str as Debug> table is the loader's external
    x_print (only string constants inside the scope expression of a scoped variable read it). *)
+(* already for the parser alone, and for EVERY accepted text (not only the renderings of Props/C07.v parse_render_file) *)
+Theorem parsed_node_text : forall X fuel text f pats,
+  Parser.parse X fuel text = Parser.POk f pats ->
+  forall v t l, In (SNode v t l) (file_stmts f) -> t = display_variable (dpenv_of (Parser.x_print X)) v.
+Proof.
+  intros X fuel text f pats H v t l Hin. pose proof (ParseNodeText.parsed_node_text_lemma _ _ _ _ _ H) as Hall.
+  rewrite forallb_forall in Hall. apply (ParseNodeText.node_textb_spec _ v t l). exact (Hall _ Hin).
+Qed.
+
 Theorem loaded_node_text : forall X q fuel text fl pats,
   Loader.load X q fuel text = Loader.LdOk fl pats ->
   forall v t l, In (SNode v t l) (file_stmts fl) -> t = display_variable (dpenv_of (Parser.x_print X)) v.
